@@ -1214,7 +1214,7 @@ def crop_to_target_areas(
     traces, areas = match_crs(traces, areas)
 
     if not is_filtered:
-        traces.reset_index(drop=True, inplace=True)
+        traces = traces.reset_index(drop=True)
         spatial_index = traces.sindex
         assert isinstance(spatial_index, SpatialIndex), type(spatial_index)
 
